@@ -484,7 +484,7 @@ func codecEndToEnd(e *Env, hostile [][]byte, rng *rand.Rand) {
 	}
 	// server child
 	exe, _ := os.Executable()
-	cmd := exec.Command(exe, "serve", "C13", "x")
+	cmd := exec.Command(exe, "serve", "C13", "1")
 	stdin, _ := cmd.StdinPipe()
 	stdout, _ := cmd.StdoutPipe()
 	logf, _ := os.CreateTemp("", "c13-serve-*.log")
@@ -575,19 +575,68 @@ func codecEndToEnd(e *Env, hostile [][]byte, rng *rand.Rand) {
 	R.Eval("e2e-hostile", true)
 }
 
-// Serve runs a puppet server until stdin closes (child process of the C13 and C12 engines).
-func Serve() {
-	s, err := h.NewSrv(0, 1, "127.0.0.1:0", false)
-	if err != nil {
-		fmt.Println("ERR", err)
-		os.Exit(1)
+// Serve runs n puppet servers until stdin closes (child process of the C13 and C12 engines).
+// Commands on stdin: "STOP i", "START i", "CONNS" (answers "CONNS <live streams per server>").
+func Serve(n int) {
+	if n < 1 {
+		n = 1
 	}
-	fmt.Println("ADDR", s.Addr)
-	buf := make([]byte, 1)
+	var srvs []*h.Srv
+	for i := 0; i < n; i++ {
+		s, err := h.NewSrv(i, uint32(i+1), "127.0.0.1:0", false)
+		if err != nil {
+			fmt.Println("ERR", err)
+			os.Exit(1)
+		}
+		s.SetBehaviour(func(c *h.HCall) (*puppet.Rep, error) {
+			if c.Req.GetKind() == 77 { // never answers; releases its connection
+				c.Ctx.Release()
+				select {
+				case <-c.S.Done():
+				case <-c.Ctx.Done():
+				}
+				return nil, h.ErrSilent
+			}
+			return h.DefaultBehaviour(c)
+		})
+		srvs = append(srvs, s)
+		fmt.Println("ADDR", s.Addr)
+	}
+	rd := bufio.NewReader(os.Stdin)
 	for {
-		if _, err := os.Stdin.Read(buf); err != nil {
+		line, err := rd.ReadString('\n')
+		if err != nil {
 			break
 		}
+		f := strings.Fields(line)
+		if len(f) == 0 {
+			continue
+		}
+		switch f[0] {
+		case "STOP", "START":
+			var i int
+			fmt.Sscan(f[1], &i)
+			if f[0] == "STOP" {
+				srvs[i].Stop()
+			} else {
+				srvs[i].Restart()
+			}
+			fmt.Println("OK")
+		case "CONNS":
+			out := "CONNS"
+			for _, s := range srvs {
+				live := 0
+				for _, ci := range s.Conns() {
+					if ci.Ctx != nil && ci.Ctx.Err() == nil {
+						live++
+					}
+				}
+				out += fmt.Sprintf(" %d", live)
+			}
+			fmt.Println(out)
+		}
 	}
-	s.Stop()
+	for _, s := range srvs {
+		s.Stop()
+	}
 }
